@@ -78,6 +78,9 @@ def table():
         lambda: ps.IndicatorFromMathExpression(name="i", expression=T("a")._start),
         lambda: ps.IndicatorFromMathExpression(name="i", expression=T("b")._end)), "duplicate")
 
+    row("dup.objective", REJECT, lambda: dup(lambda: (T("a"), ps.ObjectiveMinimizeMakespan()),
+                                             lambda: ps.ObjectiveMinimizeMakespan()), "duplicate")
+
     def dup_sel():
         P()
         w1, w2 = ps.Worker(name="w1"), ps.Worker(name="w2")
